@@ -32,9 +32,9 @@ var vScaleTargets = []int{-1, 0, 1, 2, 3, 9, 10, 11}
 // its own state, log and configuration rendered for its replica number - the same set a fresh
 // load with replicas: n produces; survivors are not restarted, removed ones are terminated,
 // added ones launched, other processes untouched; n < 1 and unknown names fail without effect.
-func verifScaleBody(requests int) { verifScaleBodyT(requests, vScaleTargets, 12, true) }
+func verifScaleBody(requests int) { verifScaleBodyT(requests, vScaleTargets, 12, true, false) }
 
-func verifScaleBodyT(requests int, targets []int, maxIdx int, variants bool) {
+func verifScaleBodyT(requests int, targets []int, maxIdx int, variants bool, withBackoff bool) {
 	w := vInit()
 	vBindHealth()
 	r0 := []int{1, 2, 3}[verifChooseK("initial.replicas", 3)]
@@ -42,8 +42,8 @@ func verifScaleBodyT(requests int, targets []int, maxIdx int, variants bool) {
 	// each initial replica either runs until stopped or has already completed (exit 0) when the
 	// scale request arrives
 	completed := map[string]bool{}
-	nBackoff := 0 // the back-off variant of a replica is explored for single requests only
-	if requests == 1 {
+	nBackoff := 0 // the back-off variant of a replica has a harness of its own (Scale1Backoff)
+	if withBackoff {
 		nBackoff = 1
 	}
 	var backoff []string // replica names whose command is made to die right before the first request
@@ -52,12 +52,15 @@ func verifScaleBodyT(requests int, targets []int, maxIdx int, variants bool) {
 			continue
 		}
 		key := "p/" + strconv.Itoa(pc.ReplicaNum)
+		st := 0
+		if variants {
+			st = verifChooseK("completed."+key, 2+nBackoff)
+		}
 		switch {
-		case !variants:
-		case verifChooseK("completed."+key, 2+nBackoff) == 1:
+		case st == 1:
 			completed[key] = true
 			w.behavKey[key] = &vBehav{codes: []int{0}}
-		case verifChooseK("completed."+key, 2+nBackoff) == 2:
+		case st == 2:
 			// this replica restarts for ever; its command has just died and it waits out its
 			// back-off (5 s) when the scale request arrives
 			pc.RestartPolicy = types.RestartPolicyConfig{Restart: types.RestartPolicyAlways, BackoffSeconds: 5}
@@ -193,5 +196,8 @@ func VerifC13_Scale2() { verifScaleBody(2) }
 // across the 99/100 name-width boundary (thorough): two successive requests from {99,100,101}
 func VerifC13_Scale100() {
 	verifUnwind(4000)
-	verifScaleBodyT(2, []int{99, 100, 101}, 102, false)
+	verifScaleBodyT(2, []int{99, 100, 101}, 102, false, false)
 }
+
+// one request, each initial replica running, completed, or waiting out its restart back-off
+func VerifC13_Scale1Backoff() { verifScaleBodyT(1, []int{1, 2, 3}, 12, true, true) }
